@@ -297,6 +297,10 @@ class ReservedResources():
             will be set to have no reserve resources.
         '''
         assert_is_instance(reserved_resources, ReservedResources)
+        if reserved_resources is self:
+            return
+        if reserved_resources._resource_manager is not self._resource_manager:
+            raise ValueError('Can not merge resources that were reserved with a different ResourceManager.')
         for resource_name, amount in reserved_resources._reserved_resources.items():
             try:
                 self._reserved_resources[resource_name] += amount
